@@ -136,7 +136,9 @@ def tlc(sc, module, cfg, workers=None, timeout=600, dump=None, simulate=None, de
         i = p.stdout.find("Error:")
         r.trace_text = p.stdout[i:]
     if not r.ok and not r.violated:
-        raise Broken("TLC failed (rc=%s) on %s/%s:\n%s" % (p.returncode, module, cfg, p.stdout[-3000:]))
+        lines = p.stdout.splitlines()
+        errs = [" ".join(x.strip() for x in lines[i:i + 4]) for i, l in enumerate(lines) if l.startswith("Error:")][:2]
+        raise Broken("TLC failed (rc=%s) on %s/%s: %s\n%s" % (p.returncode, module, cfg, " || ".join(errs)[:900], p.stdout[-3000:]))
     return r
 
 
